@@ -67,6 +67,9 @@ pub struct EncSummary {
     pub extra_padding: u32,
     pub section_offset: u32,
     pub format_version: u16,
+    /// an additional one-byte integer property (type 16, needs format
+    /// version 1) under an id the library has no getter for
+    pub extra_i1: Option<(u32, i8)>,
 }
 
 #[derive(Clone, Debug)]
@@ -298,6 +301,13 @@ pub fn encode_summary(s: &EncSummary, cp: i32) -> Vec<u8> {
         v.extend_from_slice(&3u32.to_le_bytes());
         v.extend_from_slice(&n.to_le_bytes());
         props.push((15, v));
+    }
+    if let Some((id, v)) = s.extra_i1 {
+        let mut b = Vec::new();
+        b.extend_from_slice(&16u32.to_le_bytes());
+        b.push(v as u8);
+        b.extend_from_slice(&[0, 0, 0]);
+        props.push((id, b));
     }
     props.sort_by_key(|p| p.0);
     match s.order {
@@ -564,5 +574,6 @@ pub fn default_summary() -> EncSummary {
         extra_padding: 0,
         section_offset: 48,
         format_version: 0,
+        extra_i1: None,
     }
 }
